@@ -761,6 +761,28 @@ func discharge(o *Obligation, dir string, axioms []*Term, secs int, thorough boo
 	// stage 1: z3-new alone, short
 	ctx := context.Background()
 	decided := func(r solveResult) bool { return r.answer == "sat" || r.answer == "unsat" }
+	if o.Cover {
+		// a vacuity guard only matters when the hypotheses are refuted, and that is quick when it happens; finding a
+		// model of quantified hypotheses is not worth the budget
+		r := runSolver(ctx, solvers[0], file, min(secs, 3))
+		o.Millis = r.millis
+		switch {
+		case r.answer == "unsat" && o.CoverBase != nil && coverBaseUnsat(o, dir, axioms, min(secs, 3)):
+			o.Verdict = "discharged"
+			o.Backend = r.backend + "(dead path)"
+		case r.answer == "unsat":
+			o.Verdict = "refuted"
+			o.Backend = r.backend
+			o.Model = "hypotheses are contradictory (vacuous contract)"
+		case r.answer == "sat":
+			o.Verdict = "discharged"
+			o.Backend = r.backend
+		default:
+			o.Verdict = "discharged"
+			o.Backend = "inconclusive(" + r.answer + ")"
+		}
+		return
+	}
 	// stage 1: z3-new alone, short; alongside it the same condition without its quantified hypotheses (see below)
 	var first solveResult
 	var results []solveResult
@@ -893,6 +915,10 @@ func discharge(o *Obligation, dir string, axioms []*Term, secs int, thorough boo
 	if o.Cover {
 		// expected satisfiable: vacuity guard
 		switch {
+		case best != nil && best.answer == "unsat" && o.CoverBase != nil && coverBaseUnsat(o, dir, axioms, secs):
+			// the path itself is infeasible: nothing the assumption could make vacuous
+			o.Verdict = "discharged"
+			o.Backend = best.backend + "(dead path)"
 		case best != nil && best.answer == "unsat":
 			o.Verdict = "refuted"
 			o.Backend = best.backend
@@ -955,6 +981,18 @@ func groundVariant(file string) string {
 		return ""
 	}
 	return gf
+}
+
+// coverBaseUnsat: is the path condition before the assumption already contradictory?
+func coverBaseUnsat(o *Obligation, dir string, axioms []*Term, secs int) bool {
+	b := &Obligation{Name: o.Name + "$base", Kind: "cover", Goal: TTrue, Hyps: o.CoverBase, Cover: true, Func: o.Func, Defs: o.Defs, Extra: o.Extra, Axioms: o.Axioms}
+	h := sha1.Sum([]byte(b.Name))
+	file := filepath.Join(dir, fmt.Sprintf("%s-%x.smt2", sanitize(b.Name)[:min(100, len(sanitize(b.Name)))], h[:4]))
+	if _, err := writeSMT(b, file, axioms, false, nil); err != nil {
+		return false
+	}
+	r := runSolver(context.Background(), solvers[0], file, secs)
+	return r.answer == "unsat"
 }
 
 func sanitize(s string) string {
